@@ -117,6 +117,29 @@ Definition convert_label (tok : string) : string :=
 
 Definition field_label (c : string) : string := String.append "field_" c.
 
+(* guards of the label rule *)
+Fixpoint has_sp (s : string) : bool :=
+  match s with EmptyString => false | String c t => Ascii.eqb c sp || has_sp t end.
+Fixpoint has_brace (s : string) : bool :=
+  match s with EmptyString => false
+  | String c t => Ascii.eqb c lbrace || Ascii.eqb c rbrace || has_brace t end.
+Definition label_ok (c : string) : Prop := has_sp c = false /\ has_brace c = false.
+
+(* str.split(): the maximal runs of non-blank characters (blank = space, \t \n \v \f \r) *)
+Definition is_ws (c : ascii) : bool :=
+  let k := nat_of_ascii c in (k =? 32)%nat || ((9 <=? k)%nat && (k <=? 13)%nat).
+Fixpoint has_ws (s : string) : bool :=
+  match s with EmptyString => false | String c t => is_ws c || has_ws t end.
+Fixpoint raw_words (s : string) : list string :=
+  match s with
+  | EmptyString => [EmptyString]
+  | String c t =>
+      if is_ws c then EmptyString :: raw_words t
+      else match raw_words t with w :: l => String c w :: l | [] => [String c EmptyString] end
+  end.
+Definition words (s : string) : list string :=
+  filter (fun w => negb (String.eqb w "")) (raw_words s).
+
 Fixpoint all_eqb (s : string) (l : list string) : bool :=
   match l with [] => true | h :: t => String.eqb s h && all_eqb s t end.
 Definition all_same (l : list string) : bool :=
@@ -197,7 +220,7 @@ Section Codec.
                    (map2 (fun lo c => lo + c / 2) (pmin r) (cell m))
                    (n m) (cell m) (pmin r) (pmax r)
                    (Some (Z.of_nat write_dim)) (Some labels)
-                   (Some (repeat (unit_token (of_unit f)) write_dim))
+                   (Some (flat_map words (repeat (unit_token (of_unit f)) write_dim)))   (* tokens of the joined line *)
                    rp (match rp with RTxt => None | _ => Some (write_check_value rp) end)
                    (map (wr rp) payload)
                    (if extend then 3%nat else nv) true,
@@ -245,6 +268,26 @@ Section Codec.
                  (map (rd (f_rep fl)) (from_ovf_order d nx ny nz vd data)))
     end.
 End Codec.
+
+(* ---------- well-formed fields: what Field/Mesh/Region constructors establish + the guards of C09 ---------- *)
+Definition unit_ok (u : option string) : Prop :=
+  match u with
+  | None => True
+  | Some s => s <> ""%string /\ s <> "None"%string /\ has_ws s = false
+  end.
+
+Definition wf_ofield {V} (f : ofield V) : Prop :=
+  let m := of_mesh f in
+  wf_mesh m /\ length (pmin (reg m)) = 3%nat /\ all_same (units (reg m)) = true /\
+  (1 <= of_nvdim f)%nat /\
+  ((2 <= of_nvdim f)%nat ->
+     exists l, of_vdims f = Some l /\ length l = of_nvdim f /\ nodupb l = true /\ Forall label_ok l) /\
+  unit_ok (of_unit f) /\
+  (exists nx ny nz, dims3 m = Some (nx, ny, nz) /\
+     length (of_vals f) = (nx * (ny * (nz * of_nvdim f)))%nat).
+
+(* what extend_scalar makes of the value array of a scalar field *)
+Definition extend_vals {V} (zero : V) (a : list V) : list V := flat_map (fun v => [v; zero; zero]) a.
 
 (* ---------- IEEE binary32 rounding on rationals (round to nearest, ties to even) ---------- *)
 (* floor(log2 a) for a > 0 *)
